@@ -21,6 +21,7 @@ import (
 	"io"
 	"net"
 	"strconv"
+	"sync"
 
 	"github.com/cybergarage/go-logger/log"
 	"github.com/cybergarage/go-redis/redis/auth"
@@ -42,6 +43,9 @@ type Server struct {
 	systemCommandHandler SystemCommandHandler
 	userCommandHandler   UserCommandHandler
 	commandExecutors     Executors
+	// acceptGroup tracks the accept loops and connGroup the connection goroutines, so that Stop can wait for them.
+	acceptGroup sync.WaitGroup
+	connGroup   sync.WaitGroup
 }
 
 // NewServer returns a new server instance.
@@ -107,12 +111,23 @@ func (server *Server) Start() error {
 		return err
 	}
 
-	if server.IsPortEnabled() {
-		go server.serve()
+	// Each accept loop owns the listener it was started with: a loop of an earlier start
+	// can never touch the listeners of a later one.
+	if l := server.portListener; l != nil {
+		server.acceptGroup.Add(1)
+		go func() {
+			defer server.acceptGroup.Done()
+			server.serve(l)
+		}()
 	}
 
-	if server.IsTLSPortEnabled() {
-		go server.tlsServe()
+	if l := server.tlsPortListener; l != nil {
+		tlsConfig := server.tlsConfig
+		server.acceptGroup.Add(1)
+		go func() {
+			defer server.acceptGroup.Done()
+			server.tlsServe(l, tlsConfig)
+		}()
 	}
 
 	return nil
@@ -120,13 +135,17 @@ func (server *Server) Start() error {
 
 // Stop stops the server.
 func (server *Server) Stop() error {
-	if err := server.ConnManager.Stop(); err != nil {
-		return err
-	}
-
+	// Stops accepting first: once the accept loops have ended every accepted connection is registered,
+	// so closing the registered connections closes all of them.
 	if err := server.close(); err != nil {
 		return err
 	}
+	server.acceptGroup.Wait()
+
+	if err := server.ConnManager.Stop(); err != nil {
+		return err
+	}
+	server.connGroup.Wait()
 
 	if server.IsPortEnabled() {
 		addr := net.JoinHostPort(server.Addr, strconv.Itoa(server.ConfigPort()))
@@ -151,14 +170,17 @@ func (server *Server) Restart() error {
 
 // open opens a listen socket.
 func (server *Server) open() error {
-	var err error
-
+	// A listener field is only replaced by a listener that could be opened, so a failing start
+	// leaves a running server as it is.
+	var openedPortListener net.Listener
 	if server.IsPortEnabled() {
 		addr := net.JoinHostPort(server.Addr, strconv.Itoa(server.ConfigPort()))
-		server.portListener, err = net.Listen("tcp", addr)
+		l, err := net.Listen("tcp", addr)
 		if err != nil {
 			return err
 		}
+		server.portListener = l
+		openedPortListener = l
 		log.Infof("%s/%s (%s) started", PackageName, Version, addr)
 	}
 
@@ -169,15 +191,24 @@ func (server *Server) open() error {
 		} else {
 			tlsConfig, err := NewTLSConfigFrom(server.ServerConfig)
 			if err != nil {
+				if openedPortListener != nil {
+					openedPortListener.Close()
+					server.portListener = nil
+				}
 				return err
 			}
 			server.tlsConfig = tlsConfig
 		}
 		addr := net.JoinHostPort(server.Addr, strconv.Itoa(server.ConfigTLSPort()))
-		server.tlsPortListener, err = net.Listen("tcp", addr)
+		l, err := net.Listen("tcp", addr)
 		if err != nil {
+			if openedPortListener != nil {
+				openedPortListener.Close()
+				server.portListener = nil
+			}
 			return err
 		}
+		server.tlsPortListener = l
 		log.Infof("%s/%s (%s) started", PackageName, Version, addr)
 	}
 
@@ -205,53 +236,65 @@ func (server *Server) close() error {
 	return nil
 }
 
-// serve handles client connections.
-func (server *Server) serve() error {
-	defer server.close()
-
-	l := server.portListener
+// serve handles client connections of the specified listener.
+func (server *Server) serve(l net.Listener) error {
+	defer l.Close()
 	for {
-		if l == nil {
-			break
-		}
 		conn, err := l.Accept()
 		if err != nil {
 			return err
 		}
-
-		go server.receive(conn, nil)
+		server.startConn(conn, nil)
 	}
-
-	return nil
 }
 
-// tlsServe handles client connections with TLS.
-func (server *Server) tlsServe() error {
-	defer server.close()
-	l := server.tlsPortListener
+// tlsServe handles client connections of the specified listener with TLS.
+func (server *Server) tlsServe(l net.Listener, tlsConfig *tls.Config) error {
+	defer l.Close()
 	for {
-		if l == nil {
-			break
-		}
 		conn, err := l.Accept()
 		if err != nil {
 			return err
 		}
-
-		tlsConn := tls.Server(conn, server.tlsConfig)
-		if err := tlsConn.Handshake(); err != nil {
-			return err
-		}
-		tlsState := tlsConn.ConnectionState()
-
-		go server.receive(tlsConn, &tlsState)
+		tlsConn := tls.Server(conn, tlsConfig)
+		server.startConn(tlsConn, tlsConn)
 	}
-
-	return nil
 }
 
-// receive handles a client connection.
+// startConn registers an accepted connection and serves it in its own goroutine.
+func (server *Server) startConn(conn net.Conn, tlsConn *tls.Conn) {
+	handlerConn := newConnWith(conn, nil)
+	server.AddConn(handlerConn)
+	server.connGroup.Add(1)
+	go func() {
+		defer server.connGroup.Done()
+		if tlsConn != nil {
+			// The handshake runs in the connection goroutine, so a failing, stalling or
+			// abandoned handshake affects only this connection.
+			if err := tlsConn.Handshake(); err != nil {
+				log.Error(err)
+				server.RemoveConn(handlerConn)
+				handlerConn.Close()
+				return
+			}
+			tlsState := tlsConn.ConnectionState()
+			handlerConn.tlsState = &tlsState
+		}
+		server.serveConn(handlerConn)
+	}()
+}
+
+// receive registers and handles a client connection.
 func (server *Server) receive(conn net.Conn, tlsState *tls.ConnectionState) error {
+	handlerConn := newConnWith(conn, tlsState)
+	server.AddConn(handlerConn)
+	return server.serveConn(handlerConn)
+}
+
+// serveConn handles a registered client connection.
+func (server *Server) serveConn(handlerConn *Conn) error {
+	conn := handlerConn.Conn
+	tlsState := handlerConn.tlsState
 	_, isPasswdRequired := server.ConfigRequirePass()
 
 	// A panic while serving one connection must not take the whole server down:
@@ -262,9 +305,11 @@ func (server *Server) receive(conn net.Conn, tlsState *tls.ConnectionState) erro
 		}
 	}()
 
-	handlerConn := newConnWith(conn, tlsState)
 	defer func() {
 		handlerConn.Close()
+	}()
+	defer func() {
+		server.RemoveConn(handlerConn)
 	}()
 
 	handlerConn.SetAuthrized(!isPasswdRequired)
@@ -278,11 +323,6 @@ func (server *Server) receive(conn net.Conn, tlsState *tls.ConnectionState) erro
 			return errors.Join(err, handlerConn.Close())
 		}
 	}
-
-	server.AddConn(handlerConn)
-	defer func() {
-		server.RemoveConn(handlerConn)
-	}()
 
 	log.Debugf("%s/%s (%s) accepted", PackageName, Version, conn.RemoteAddr().String())
 
